@@ -436,6 +436,50 @@ def run_legacy(ctx, rng, name, kind, ref_fn, fixed=None):
     return got
 
 
+def slow_link(ctx, rng, leg_ref, e3_ref):
+    """The same requests over a link whose every reply really takes 12-30 ms (a USB hub, a busy
+    host): what is transmitted must not depend on how long the port takes to answer."""
+    latency = rng.choice((0.012, 0.02, 0.03))
+    n = rng.choice((751, 1500, 1501, 2000, 2251, 750, 1))
+    ref = ("pause", n)
+    witness = {"helper": "doTimedPause / timed_pause", "args": [n], "link_round_trip_s": latency}
+    leg = Legacy()
+    leg.port.latency = latency
+    mark, _res, raised = leg.call("doTimedPause", [n])
+    problems = []
+    got_l = wire_lines(ctx, leg.log, mark, problems)
+    world = ebb3mon.World(board_kwargs={"version": "3.0.2"})
+    world.attach()
+    world.port.latency = latency
+    mark = world.log.mark()
+    top, _ = ebb3mon.call_step(world, {"m": "timed_pause", "a": [n]})
+    got_3 = wire_lines(ctx, world.log, mark, problems)
+    ctx.case(["slow link (every reply takes 12-30 ms of real time)"], ("slow", n, latency))
+    if raised is not None or top is None or "raised" in top:
+        ctx.violation("helper raised", dict(witness, exception=repr(raised or (top and top.get("raised")))))
+        return
+    for layer, got in (("legacy", got_l), ("ebb3", got_3)):
+        diff = compare("timed pause", ref, got, False)
+        for p in problems + ([diff] if diff else []):
+            ctx.violation(p["kind"], dict(witness, layer=layer, **p))
+        problems = []
+    if got_l != got_3:
+        ctx.violation("the two layers emit different text for the same request",
+                      dict(witness, legacy=got_l[:8], ebb3=got_3[:8]))
+    # one ordinary helper of each layer as well
+    name = rng.choice(["doXYMove", "sendPenUp", "sendEnableMotors"])
+    kind, ref_fn = leg_ref[name]
+    args, pos, _classes = gen_args(rng, kind)
+    leg = Legacy()
+    leg.port.latency = latency
+    mark, _res, raised = leg.call(name, pos)
+    problems = []
+    got = wire_lines(ctx, leg.log, mark, problems)
+    diff = compare(name, ref_fn(args), got, name in GATED_LEGACY)
+    for p in problems + ([diff] if diff else []):
+        ctx.violation(p["kind"], dict({"layer": "legacy", "helper": name, "args": pos, "link_round_trip_s": latency}, **p))
+
+
 def keywordize(fn, pos, skip_first=False):
     """(positional part, keyword part) for calling fn with its trailing arguments by keyword; the
     parameter names come from the function as it is now (renaming one is not a violation)."""
@@ -624,6 +668,9 @@ def run(ctx):
         if i % 50 == 0:
             run_noport(ctx, rng, leg_ref, e3_ref)
         run_sessions(ctx, rng, leg_ref, e3_ref)
+    for _ in range(ctx.budget(25, 60)):
+        slow_link(ctx, rng, leg_ref, e3_ref)
+    ctx.need("slow link (every reply takes 12-30 ms of real time)", 20)
     for name in leg_ref:
         ctx.need("legacy:" + name, 100)
     for name in e3_ref:
